@@ -50,16 +50,21 @@ def fid_of(st, p):
     return 0
 
 
+def live_ios(st, mf):
+    mf['ios'] = [(o, f) for (o, f) in mf['ios'] if st.objs.get(o) is not None and not st.objs[o].freed]
+    return mf['ios']
+
+
 def set_state(ex, st, mf, bits):
     mf['state'] |= bits
-    for (obj, off) in mf['ios']:
+    for (obj, off) in live_ios(st, mf):
         from llsym import Ptr
         ex.store_val(st, Ptr(obj, off + IOS_STATE_OFF), I32, mf['state'])
 
 
 def clear_state(ex, st, mf, bits=None):
     mf['state'] = 0 if bits is None else (mf['state'] & ~bits)
-    for (obj, off) in mf['ios']:
+    for (obj, off) in live_ios(st, mf):
         from llsym import Ptr
         ex.store_val(st, Ptr(obj, off + IOS_STATE_OFF), I32, mf['state'])
 
@@ -135,9 +140,121 @@ def itoa_bytes(v):
     return [ord(c) for c in str(v)]
 
 
+import re as _re
+_FS = _re.compile(r'^_ZNK?St1[34]basic_(fstream|ifstream|ofstream)IcSt11char_traitsIcEE(C[12]|D[012]|4open|5close|7is_open)E(.*)$')
+
+def is_forced(name):
+    return name in FORCED or _FS.match(name) is not None or name.startswith('_ZNSt10filesystem7__cxx114pathC') or name.startswith('_ZNSt10filesystem7__cxx114pathD') \
+        or name == '_ZN3Opm5EclIO11isFormattedERKNSt7__cxx1112basic_stringIcSt11char_traitsIcESaIcEEE'
+
+
+def fstream_model(ex, st, name, a, x):
+    """std::fstream / ifstream / ofstream objects as handles on named memfiles (names registered by the harness with verif_memfile_name)"""
+    from llsym import Ptr, Violation, NULL
+    m = _FS.match(name); kind, member, rest = m.group(1), m.group(2), m.group(3)
+    S = ex.stats['stubs']; S.add('std::%s::%s -> named memfile' % (kind, {'C1': 'ctor', 'C2': 'ctor', 'D0': 'dtor', 'D1': 'dtor', 'D2': 'dtor'}.get(member, member[1:])))
+    this = a[0]
+    names = getattr(st, 'mfnames', {})
+    def do_open(fname_bytes, mode):
+        fname = bytes(fname_bytes).decode('latin1')
+        if not isc(mode): raise Violation('unsupported', 'symbolic open mode', st)
+        fid = names.get(fname)
+        st.sbind = dict(st.sbind)
+        if fid is None:
+            if mode & 16:      # out: create
+                fid = 2000 + len(names); st.mfnames = dict(names); st.mfnames[fname] = fid; mf_get(st, fid)
+            else:
+                fid = 2999; mf = mf_get(st, fid); st.sbind[this.obj] = fid; mf['ios'] = []; plant(ex, st, this, mf, kind); set_state(ex, st, mf, FAILBIT); return
+        mf = mf_get(st, fid); st.sbind[this.obj] = fid
+        if (mode & 32) or ((mode & 16) and not (mode & 8) and not (mode & 1)): mf['data'] = []      # trunc, or out without in/app
+        mf['g'] = 0; mf['p'] = len(mf['data']) if (mode & 3) else 0; mf['state'] = 0; mf['open'] = True
+        mf['ios'] = [io for io in mf['ios'] if io[0] != this.obj]
+        plant(ex, st, this, mf, kind)
+    def name_arg(p, is_string):
+        if is_string: return read_string(ex, st, p)
+        return cstr(ex, st, p)
+    if member in ('C1', 'C2'):
+        if rest == 'v':
+            st.sbind = dict(st.sbind); st.sbind[this.obj] = 2998; mf = mf_get(st, 2998); mf['ios'] = []; mf['open'] = False; plant(ex, st, this, mf, kind); return 0
+        default_mode = {'fstream': 8 | 16, 'ifstream': 8, 'ofstream': 16}[kind]
+        is_str = 'basic_string' in rest or 'NSt7__cxx11' in rest
+        mode = a[2] if len(a) > 2 else default_mode
+        if isc(mode): mode |= {'ifstream': 8, 'ofstream': 16}.get(kind, 0)
+        do_open(name_arg(a[1], is_str), mode); return 0
+    if member == '4open':
+        is_str = 'NSt7__cxx11' in rest
+        mode = a[2] if len(a) > 2 else {'fstream': 8 | 16, 'ifstream': 8, 'ofstream': 16}[kind]
+        if isc(mode): mode |= {'ifstream': 8, 'ofstream': 16}.get(kind, 0)
+        do_open(name_arg(a[1], is_str), mode); return 0
+    if member == '5close':
+        mf = mf_get(st, fid_of(st, this)); mf['open'] = False; return 0
+    if member == '7is_open':
+        return bool(mf_get(st, fid_of(st, this)).get('open', False))
+    return 0      # destructors
+
+
 def builtin(ex, st, fr, name, a, x, work):
     from llsym import Ptr, Violation, NULL
     S = ex.stats['stubs']
+    if _FS.match(name): return fstream_model(ex, st, name, a, x)
+    if name == 'verif_memfile_name':
+        st.mfnames = dict(getattr(st, 'mfnames', {})); st.mfnames[bytes(cstr(ex, st, a[1])).decode('latin1')] = a[0]; mf_get(st, a[0]); return 0
+    # ---- streams whose constructors / open() were inlined by the compiler: modelled at the basic_ios / basic_filebuf level
+    if name == '_ZNSt9basic_iosIcSt11char_traitsIcEE4initEPSt15basic_streambufIcS1_E':
+        S.add('std::basic_ios::init -> good state, default formatting')
+        ios = a[0]; reg = dict(getattr(st, 'iosreg', {})); reg[ios.obj] = ios.off; st.iosreg = reg
+        init_ios(ex, st, ios, 0); return 0
+    if name in ('_ZNSt13basic_filebufIcSt11char_traitsIcEEC1Ev', '_ZNSt13basic_filebufIcSt11char_traitsIcEEC2Ev', '_ZNSt13basic_filebufIcSt11char_traitsIcEED1Ev', '_ZNSt13basic_filebufIcSt11char_traitsIcEED2Ev',
+                '_ZNSt12__basic_fileIcED1Ev', '_ZNSt6localeC1ERKS_'):
+        return 0
+    if name in ('_ZNSt13basic_filebufIcSt11char_traitsIcEE4openEPKcSt13_Ios_Openmode', '_ZNSt13basic_filebufIcSt11char_traitsIcEE4openERKNSt7__cxx1112basic_stringIcS1_SaIcEEESt13_Ios_Openmode'):
+        S.add('std::basic_filebuf::open -> named memfile (names registered by the harness)')
+        this = a[0]; mode = a[2]
+        if not isc(mode): raise Violation('unsupported', 'symbolic open mode', st)
+        fname = bytes(cstr(ex, st, a[1]) if 'PKc' in name else read_string(ex, st, a[1])).decode('latin1')
+        names = getattr(st, 'mfnames', {}); fid = names.get(fname)
+        if fid is None:
+            if not (mode & 16): return NULL                      # reading a file that does not exist
+            fid = 2000 + len(names); st.mfnames = dict(names); st.mfnames[fname] = fid
+        mf = mf_get(st, fid); st.sbind = dict(st.sbind); st.sbind[this.obj] = fid
+        if (mode & 32) or ((mode & 16) and not (mode & 8) and not (mode & 1)): mf['data'] = []
+        mf['g'] = 0; mf['p'] = len(mf['data']) if (mode & 3) else 0; mf['state'] = 0; mf['open'] = True
+        ioff = getattr(st, 'iosreg', {}).get(this.obj)
+        mf['ios'] = [io for io in mf['ios'] if io[0] != this.obj] + ([(this.obj, ioff)] if ioff is not None else [])
+        return this
+    if name == '_ZNSt13basic_filebufIcSt11char_traitsIcEE5closeEv':
+        mf = mf_get(st, fid_of(st, a[0])); was = mf.get('open', False); mf['open'] = False
+        return a[0] if was else NULL
+    if name.startswith('_ZNSt10filesystem7__cxx114pathC'):
+        S.add('std::filesystem::path(string) -> holds the string only (no component split)')
+        src = a[1]
+        bs = read_string(ex, st, src) if ('basic_string' in name or 'NSt7__cxx11' in name[30:]) else cstr(ex, st, src)
+        make_string(ex, st, a[0], bs)
+        ex.store_val(st, Ptr(a[0].obj, a[0].off + 32), I64, 0)
+        return 0
+    if name.startswith('_ZNSt10filesystem7__cxx114pathD'): return 0
+    if name in ('_ZNSt10filesystem11resize_fileERKNS_7__cxx114pathEm',):
+        S.add('std::filesystem::resize_file -> truncate / zero-extend the named memfile')
+        fname = bytes(read_string(ex, st, a[0])).decode('latin1'); n = a[1]
+        fid = getattr(st, 'mfnames', {}).get(fname)
+        if fid is None: raise Violation('unsupported', 'resize_file of an unknown file ' + fname, st)
+        mf = mf_get(st, fid)
+        if not isc(n):
+            # symbolic new size: one path per feasible size (the write position is one of a few header offsets)
+            vals = ex.feasible_values(st, n, 64)
+            def dotrunc(state, k):
+                m2 = mf_get(state, fid); del m2['data'][k:]
+                while len(m2['data']) < k: m2['data'].append(0)
+                m2['p'] = min(m2['p'], k)
+            for k in vals[:-1]: ex.fork_ret(st, x, n == z3.BitVecVal(k, 64), 0, work, post=lambda o, kk=k: dotrunc(o, kk))
+            ex.assume(st, n == z3.BitVecVal(vals[-1], 64)); dotrunc(st, vals[-1]); return 0
+        del mf['data'][n:]
+        while len(mf['data']) < n: mf['data'].append(0)
+        mf['p'] = min(mf['p'], n); return 0
+    if name == '_ZN3Opm5EclIO11isFormattedERKNSt7__cxx1112basic_stringIcSt11char_traitsIcESaIcEEE':
+        S.add('Opm::EclIO::isFormatted -> decided from the extension of the (concrete) file name')
+        fname = bytes(read_string(ex, st, a[0])).decode('latin1'); ext = fname[fname.rfind('.'):] if '.' in fname else ''
+        return bool(ext != '.GRID' and len(ext) > 1 and ext[1] in 'ABCFGH')
     # ---------------- harness-side constructors / accessors
     if name == 'verif_memfile':        # n symbolic bytes, returns a dummy std::fstream bound to a fresh file
         n = a[0]; fid = len([k for k in st.mfs if k < 900]) + 1
@@ -299,7 +416,7 @@ def builtin(ex, st, fr, name, a, x, work):
         if signed and v >> (w - 1): v -= 1 << w
         insert_padded(ex, st, a[0], mf, itoa_bytes(v)); return a[0]
     if name in ('_ZNKSt12__basic_fileIcE7is_openEv',):
-        S.add('std::basic_filebuf::is_open -> true'); return True
+        S.add('std::basic_filebuf::is_open -> bound memfile is open'); return bool(mf_get(st, fid_of(st, a[0])).get('open', True))
     if name in ('_ZNSt9basic_iosIcSt11char_traitsIcEE5clearESt12_Ios_Iostate',):
         # clear(state): sets the state to the argument (through the basic_ios pointer: find the file by object)
         mf = mf_get(st, fid_of(st, a[0])); v = a[1]
@@ -518,6 +635,23 @@ def read_string(ex, st, p):
     return [ex.load_val(st, Ptr(buf.obj, buf.off + i), I8) for i in range(n)]
 
 
+def init_ios(ex, st, ios, state):
+    """initialise a basic_ios sub-object: state bits, width, precision, flags, fill and a fake ctype facet"""
+    from llsym import Ptr
+    ex.store_val(st, Ptr(ios.obj, ios.off + IOS_STATE_OFF), I32, state)
+    ex.store_val(st, Ptr(ios.obj, ios.off + IOS_WIDTH_OFF), I64, 0)
+    ex.store_val(st, Ptr(ios.obj, ios.off + IOS_PREC_OFF), I64, 6)
+    ex.store_val(st, Ptr(ios.obj, ios.off + IOS_FLAGS_OFF), I32, 0x1002)
+    ct = getattr(st, 'fake_ctype', None)
+    if ct is None or ct not in st.objs:
+        ct = ex.new_obj(st, 576, 'fake std::ctype<char>', kind='zero'); st.fake_ctype = ct
+        o = st.objs[ct]; o.cells[56] = (1, 1); o.cells[569] = (1, 1)
+        for ch in range(256): o.cells[57 + ch] = (1, ch); o.cells[313 + ch] = (1, ch)
+    ex.store_val(st, Ptr(ios.obj, ios.off + 240), PTR(I8), Ptr(ct, 0))
+    ex.store_val(st, Ptr(ios.obj, ios.off + IOS_FILL_OFF), I8, 32)
+    ex.store_val(st, Ptr(ios.obj, ios.off + IOS_FILL_OFF + 1), I8, 1)
+
+
 def plant(ex, st, p, mf, kind):
     """plant fake vtable pointer(s) so that inlined basic_ios accessors find the ios sub-object"""
     from llsym import Ptr
@@ -528,6 +662,7 @@ def plant(ex, st, p, mf, kind):
         ex.store_val(st, Ptr(vt, 64 * k + 0), I64, vboff)          # vbase offset at address point - 24
         ex.store_val(st, Ptr(p.obj, p.off + at), PTR(I8), Ptr(vt, 64 * k + 24))
     mf['ios'] = list(mf['ios']) + [(p.obj, p.off + iosoff)]
+    reg = dict(getattr(st, 'iosreg', {})); reg[p.obj] = p.off + iosoff; st.iosreg = reg
     ex.store_val(st, Ptr(p.obj, p.off + iosoff + IOS_STATE_OFF), I32, mf['state'])
     ex.store_val(st, Ptr(p.obj, p.off + iosoff + IOS_WIDTH_OFF), I64, 0)
     ex.store_val(st, Ptr(p.obj, p.off + iosoff + IOS_PREC_OFF), I64, 6)
